@@ -377,17 +377,44 @@ func (e eng) Execute(mode string, c *hx.Case) (*hx.Result, error) {
 		return nil, err
 	}
 	kind, _ := c.Params["kind"].(string)
+	var f func(*hx.Case, []opJ) (*hx.Result, error)
 	switch kind {
 	case "wm":
-		return execWm(c, ops)
+		f = execWm
 	case "pipe":
-		return execPipe(c, ops)
+		f = execPipe
 	case "reg":
-		return execReg(c, ops)
+		f = execReg
 	case "op":
-		return execOp(c, ops)
+		f = execOp
+	default:
+		return nil, fmt.Errorf("unknown kind %q", kind)
 	}
-	return nil, fmt.Errorf("unknown kind %q", kind)
+	// watchdog: a case that does not finish (e.g. a firing loop that never ends) is reported, not waited for
+	type out struct {
+		res *hx.Result
+		err error
+		pan any
+	}
+	ch := make(chan out, 1)
+	go func() {
+		defer func() {
+			if p := recover(); p != nil {
+				ch <- out{pan: p}
+			}
+		}()
+		res, err := f(c, ops)
+		ch <- out{res: res, err: err}
+	}()
+	select {
+	case o := <-ch:
+		if o.pan != nil {
+			panic(o.pan)
+		}
+		return o.res, o.err
+	case <-time.After(20 * time.Second):
+		return nil, fmt.Errorf("case %s did not finish within 20 s (the implementation hangs on this history)", c.Name)
+	}
 }
 
 func tsTags(t tsJ, tags map[string]bool) {
@@ -712,7 +739,7 @@ func (h *recHandler) ProcessEventBatch(ctx context.Context, req *handlerpb.Proce
 			ts := ev.TimerExpired.Timestamp
 			kid := keyID(ev.TimerExpired.Key)
 			kr := &handlerpb.KeyResult{Key: ev.TimerExpired.Key}
-			if kid >= 4 && floorMod(ts.GetSeconds(), 10) < 4 {
+			if kid >= 4 && floorMod(ts.GetSeconds(), 10) < 2 { // chains end after two steps (0->2, 0->9, 1->3, 1->0)
 				kr.NewTimers = append(kr.NewTimers,
 					&timestamppb.Timestamp{Seconds: ts.GetSeconds() + 2, Nanos: ts.GetNanos()},
 					&timestamppb.Timestamp{Seconds: ts.GetSeconds() - 1, Nanos: ts.GetNanos()})
